@@ -638,3 +638,119 @@ package http2
 //@ # prefix widths: 7 for indexed, 6 for incremental indexing, 4 for without/never indexing
 //@ ensures widths: (local(fullMatch) && !sens ==> local(bits) == 7) && (add ==> local(bits) == 6) &&
 //@ |   (!add && !(local(fullMatch) && !sens) && local(index) > 0 ==> local(bits) == 4)
+
+// ---------------------------------------------------------------------------
+// Reading and writing whole frames (frame.go, frameHeader.go). bufio and io are
+// external: trusted stubs below.
+// ---------------------------------------------------------------------------
+
+//@ func (*bufio.Reader).Peek
+//@ trusted
+//@ ensures ok: r1 == nil ==> len(r0) == n
+//@ ensures err: r1 != nil ==> len(r0) < n || n < 0
+
+//@ func (*bufio.Reader).Discard
+//@ trusted
+//@ ensures n: r0 >= 0 && r0 <= n && (r1 == nil ==> r0 == n)
+
+//@ func io.ReadFull
+//@ trusted
+//@ modifies contents(buf)
+//@ ensures n: n >= 0 && n <= len(buf) && (err == nil <==> n == len(buf))
+
+//@ func (*bufio.Writer).Write
+//@ trusted
+//@ ensures n: nn >= 0 && nn <= len(p) && (err == nil ==> nn == len(p))
+
+//@ func (*FrameHeader).Reset
+//@ props C05 C16
+//@ requires recv: f != nil
+//@ modifies f.kind, f.flags, f.stream, f.length, f.maxLen, f.fr, f.payload
+//@ ensures zero: f.kind == 0 && f.flags == 0 && f.stream == 0 && f.length == 0 && f.maxLen == 16384 && f.fr == nil && len(f.payload) == 0
+
+//@ func AcquireFrameHeader
+//@ props C05 C16
+//@ ensures fresh: r0 != nil && fresh(r0) && r0.fr == nil && r0.maxLen == 16384 && r0.length == 0 && len(r0.payload) == 0
+
+//@ # the ten frame types, by wire type code (RFC 7540 section 6)
+//@ macro frameTypeOK(x, k) = (k == 0 ==> typeis(x, *Data) && as(x, *Data) != nil) && (k == 1 ==> typeis(x, *Headers) && as(x, *Headers) != nil) &&
+//@ |  (k == 2 ==> typeis(x, *Priority) && as(x, *Priority) != nil) && (k == 3 ==> typeis(x, *RstStream) && as(x, *RstStream) != nil) &&
+//@ |  (k == 4 ==> typeis(x, *Settings) && as(x, *Settings) != nil) && (k == 5 ==> typeis(x, *PushPromise) && as(x, *PushPromise) != nil) &&
+//@ |  (k == 6 ==> typeis(x, *Ping) && as(x, *Ping) != nil) && (k == 7 ==> typeis(x, *GoAway) && as(x, *GoAway) != nil) &&
+//@ |  (k == 8 ==> typeis(x, *WindowUpdate) && as(x, *WindowUpdate) != nil) && (k == 9 ==> typeis(x, *Continuation) && as(x, *Continuation) != nil)
+
+//@ func AcquireFrame
+//@ props C05 C16 C17
+//@ # indexing the pool array with a type code outside 0..9 would panic
+//@ requires kind: 0 <= ftype && ftype <= 9
+//@ modifies family(Data), family(Headers), family(Priority), family(RstStream), family(Settings), family(PushPromise), family(Ping), family(GoAway), family(WindowUpdate), family(Continuation)
+//@ opt noframe=true
+//@ ensures typed: r0 != nil && frameTypeOK(r0, ftype)
+
+//@ func ReleaseFrame
+//@ props C16 C17
+//@ requires typed: fr != nil
+//@ opt noframe=true
+//@ modifies family(Data), family(Headers), family(Priority), family(RstStream), family(Settings), family(PushPromise), family(Ping), family(GoAway), family(WindowUpdate), family(Continuation)
+
+//@ func ReleaseFrameHeader
+//@ props C16 C17
+//@ # the body is released through its Type(): a header without a body cannot be released this way
+//@ requires body: fr != nil && fr.fr != nil
+//@ opt noframe=true
+//@ modifies family(Data), family(Headers), family(Priority), family(RstStream), family(Settings), family(PushPromise), family(Ping), family(GoAway), family(WindowUpdate), family(Continuation)
+
+//@ func (*FrameHeader).readFrom
+//@ props C05 C16
+//@ # the header is fresh from AcquireFrameHeader / Reset: no body yet, empty payload
+//@ requires recv: f != nil && br != nil && f.fr == nil && len(f.payload) == 0
+//@ opt noframe=true
+//@ modifies *f, capacity(f.payload), anybytes(), family(Data), family(Headers), family(Priority), family(RstStream), family(Settings), family(PushPromise), family(Ping), family(GoAway), family(WindowUpdate), family(Continuation)
+//@ # a frame that was read completely has a body of the type its type code names, and a payload of the announced length
+//@ ensures ok: r1 == nil ==> f.fr != nil && 0 <= f.kind && f.kind <= 9 && frameTypeOK(f.fr, f.kind) && f.length == len(f.payload)
+//@ # frames above the negotiated size are rejected before anything is allocated for them
+//@ ensures limit: r1 == nil && old(f.maxLen) != 0 ==> f.length <= old(f.maxLen)
+//@ ensures length24: r1 == nil ==> f.length >= 0 && f.length < 16777216
+//@ # a body that went back to its pool is no longer reachable from the header (no second release by the caller)
+//@ ensures relnil: called(ReleaseFrame) > 0 ==> f.fr == nil
+
+//@ func ReadFrameFromWithSize
+//@ props C05 C16 C18
+//@ requires rd: br != nil
+//@ opt noframe=true
+//@ ensures ok: r1 == nil ==> r0 != nil && r0.fr != nil && 0 <= r0.kind && r0.kind <= 9 && frameTypeOK(r0.fr, r0.kind) && r0.length == len(r0.payload)
+//@ # the caller's limit is the one that is enforced
+//@ ensures limit: r1 == nil && max != 0 ==> r0.length <= max
+//@ ensures err: r1 != nil ==> r0 == nil
+
+//@ func ReadFrameFrom
+//@ props C05 C16
+//@ requires rd: br != nil
+//@ opt noframe=true
+//@ ensures ok: r1 == nil ==> r0 != nil && r0.fr != nil && 0 <= r0.kind && r0.kind <= 9 && frameTypeOK(r0.fr, r0.kind) && r0.length == len(r0.payload)
+//@ ensures limit: r1 == nil ==> r0.length <= 16384
+//@ ensures err: r1 != nil ==> r0 == nil
+
+//@ func (*FrameHeader).SetBody
+//@ props C05 C17
+//@ requires recv: f != nil
+//@ # a nil body panics
+//@ requires body: fr != nil
+//@ opt noframe=true
+//@ ensures set: f.fr == fr
+
+//@ macro frameNonNil(x) = (typeis(x, *Data) ==> as(x, *Data) != nil) && (typeis(x, *Headers) ==> as(x, *Headers) != nil) &&
+//@ |  (typeis(x, *Priority) ==> as(x, *Priority) != nil) && (typeis(x, *RstStream) ==> as(x, *RstStream) != nil) &&
+//@ |  (typeis(x, *Settings) ==> as(x, *Settings) != nil) && (typeis(x, *PushPromise) ==> as(x, *PushPromise) != nil) &&
+//@ |  (typeis(x, *Ping) ==> as(x, *Ping) != nil) && (typeis(x, *GoAway) ==> as(x, *GoAway) != nil) &&
+//@ |  (typeis(x, *WindowUpdate) ==> as(x, *WindowUpdate) != nil) && (typeis(x, *Continuation) ==> as(x, *Continuation) != nil)
+//@ # the header's payload buffer and the body's own buffers belong to different pooled objects
+//@ macro frameSep(x, p) = (typeis(x, *GoAway) ==> bufsep(p, as(x, *GoAway).data)) && (typeis(x, *PushPromise) ==> bufsep(p, as(x, *PushPromise).header))
+
+//@ func (*FrameHeader).WriteTo
+//@ props C05 C18
+//@ requires recv: f != nil && w != nil && f.fr != nil
+//@ requires body: frameNonNil(f.fr) && frameSep(f.fr, f.payload)
+//@ opt noframe=true
+//@ # the length field is the length of the serialised payload
+//@ ensures length: f.length == len(f.payload)
